@@ -4,6 +4,7 @@ import (
 	"context"
 	"fmt"
 	"os"
+	"sort"
 	"strings"
 	"time"
 
@@ -18,7 +19,11 @@ func genCfg(r *Rng) PoolCfg {
 
 var mergeCases, revertCases []string
 
-func runHistory(res *Result, cfg PoolCfg, ops []HOp) error {
+// cold: every operation is issued through a freshly opened handle (a new
+// process: nothing cached in memory, snapshots only as the files earlier
+// handles persisted), the branch it changed is read first and then every other
+// branch through that same handle.
+func runHistory(res *Result, cfg PoolCfg, ops []HOp, cold bool) error {
 	env, err := NewLakeEnv()
 	if err != nil {
 		return err
@@ -27,8 +32,19 @@ func runHistory(res *Result, cfg PoolCfg, ops []HOp) error {
 	if err != nil {
 		return err
 	}
+	if cold {
+		lr.Tag = "C15:cold-handle"
+		res.Count("cold_handle_histories")
+	}
 	lr.Merge = NewMergeRec()
 	for _, op := range ops {
+		if cold {
+			fenv, err := OpenLakeEnv(env.Eng.View(nil))
+			if err != nil {
+				return err
+			}
+			lr.API, lr.Env = fenv.API, fenv
+		}
 		err := lr.Apply(op)
 		res.Count("op_" + op.Kind)
 		if err != nil {
@@ -36,7 +52,17 @@ func runHistory(res *Result, cfg PoolCfg, ops []HOp) error {
 		}
 		// after either operation, successful or not, every branch remains readable
 		// and holds exactly what the specification says
+		var names []string
 		for name := range lr.Branches {
+			names = append(names, name)
+		}
+		sort.Slice(names, func(i, j int) bool {
+			if (names[i] == op.Branch) != (names[j] == op.Branch) {
+				return names[i] == op.Branch
+			}
+			return names[i] < names[j]
+		})
+		for _, name := range names {
 			lr.CheckBranch(name)
 		}
 	}
@@ -176,7 +202,7 @@ func c15(o Opts) error {
 	for i := 0; i < n; i++ {
 		cfg := genCfg(rng)
 		ops, _ := GenHistory(rng, cfg, HistOpts{Len: 4 + rng.Intn(maxLen), Branches: true})
-		if err := runHistory(res, cfg, ops); err != nil {
+		if err := runHistory(res, cfg, ops, i%2 == 1); err != nil {
 			return err
 		}
 		var kinds []string
@@ -191,7 +217,10 @@ func c15(o Opts) error {
 	// reverts of merge / compact / revert commits, branch from empty main
 	for _, sc := range directed() {
 		for _, desc := range []bool{false, true} {
-			if err := runHistory(res, PoolCfg{Key: "k", Desc: desc, Stride: 1, Thresh: 1}, sc); err != nil {
+			if err := runHistory(res, PoolCfg{Key: "k", Desc: desc, Stride: 1, Thresh: 1}, sc, false); err != nil {
+				return err
+			}
+			if err := runHistory(res, PoolCfg{Key: "k", Desc: desc, Stride: 1, Thresh: 1}, sc, true); err != nil {
 				return err
 			}
 			res.Count("directed")
@@ -206,7 +235,7 @@ func c15(o Opts) error {
 			return err
 		}
 	}
-	res.Rule = "merge racing with loads on the parent under a token scheduler (60 quick / 2000 thorough schedules); random histories over {load, delete, delete-where, compact, branch (from any commit incl. empty main), merge (both directions, repeated), revert (any earlier commit incl. merge/compact/revert commits)} on 1..4 branches plus directed both-sides-delete/compact scenarios; after every operation every branch is scanned and compared with the object-set specification (merge: parent + child adds since base - child deletes since base, or conflict error and parent untouched; revert: remove what the commit added if present, restore what it deleted if absent); non-trivial = history contains a merge or a revert"
+	res.Rule = "every second random history and every directed scenario also with each operation issued through a freshly opened handle (cold caches; the changed branch read first, then all others); merge racing with loads on the parent under a token scheduler (60 quick / 2000 thorough schedules); random histories over {load, delete, delete-where, compact, branch (from any commit incl. empty main), merge (both directions, repeated), revert (any earlier commit incl. merge/compact/revert commits)} on 1..4 branches plus directed both-sides-delete/compact scenarios; after every operation every branch is scanned and compared with the object-set specification (merge: parent + child adds since base - child deletes since base, or conflict error and parent untouched; revert: remove what the commit added if present, restore what it deleted if absent); non-trivial = history contains a merge or a revert"
 	var sb strings.Builder
 	sb.WriteString("From ZV Require Import Base.Prelude Model.Merge Model.MergeCases.\n")
 	WriteCoqList(&sb, "merge_cases", "merge_case", mergeCases)
